@@ -607,6 +607,24 @@ pub fn run_builder_scenario(v: &Value, idx: usize, out: &mut dyn Write) -> usize
 }
 
 /// Sessions tagged `bwire` are followed by a parse of what they built.
+/// Contents TLV values really have: protocol names, host names, paths, checksums, identifiers.
+pub fn realistic_values() -> Vec<Vec<u8>> {
+    let mut v: Vec<Vec<u8>> = vec![
+        b"h2".to_vec(), b"http/1.1".to_vec(), b"\x02h2\x08http/1.1".to_vec(),
+        b"example.org".to_vec(), b"xn--bcher-kva.example".to_vec(), "b\u{fc}cher.example".as_bytes().to_vec(), b"a/b".to_vec(),
+        b"blue".to_vec(), b"/run/netns/blue".to_vec(), b"../../etc/passwd".to_vec(), b"a\0b".to_vec(), b"name with spaces".to_vec(),
+        vec![0xde, 0xad, 0xbe, 0xef], vec![0, 0, 0, 0], b"TLSv1.3".to_vec(), b"ECDHE-RSA-AES128-GCM-SHA256".to_vec(), b"RSA-SHA256".to_vec(),
+        b"\x01vpce-08d2bf15fac5001c9".to_vec(), vec![1, 0x78, 0x56, 0x34, 0x12],
+        b"\r\n".to_vec(), b"PROXY".to_vec(), b"%00%2f".to_vec(), b"${jndi:x}".to_vec(), b"<script>".to_vec(),
+    ];
+    v.push((0..16u8).collect());
+    v.push(vec![0x55; 128]);
+    v.push(vec![0x55; 129]);
+    v.push(ssl_value(0));
+    v.push(ssl_value(17));
+    v
+}
+
 /// The value of a PP2_TYPE_SSL TLV as HAProxy emits it: client flags, a 4-byte verify result and
 /// nested sub-TLVs (version, CN, cipher, signature algorithm, key algorithm) - every flag value,
 /// with and without each sub-TLV, also nested areas that are cut short.
@@ -901,6 +919,10 @@ pub fn vocabulary_bytes(rng: &mut Rng) -> Vec<u8> {
 fn blob(rng: &mut Rng) -> Vec<u8> {
     if rng.chance(1, 9) {
         return vocabulary_bytes(rng);
+    }
+    if rng.chance(1, 8) {
+        let vals = realistic_values();
+        return vals[rng.below(vals.len() as u64) as usize].clone();
     }
     let len = match rng.below(12) {
         0 => 0,
